@@ -523,28 +523,31 @@ theorem query_always_answers {fuel : Nat} {w : World} (hr : Reachable fuel w) {i
   simp [Cw3Fixed.queryProposal, Cw3Core.queryProposal, load, hp, viewOf, hst', bind, Except.bind, pure, Except.pure]
 
 /-- C05 "observed over time each proposal's status only moves Open to Passed to Executed or Open to
-Rejected" — ONE statement over operations and time.  Take any world `w0` reached by a history whose
-blocks never go back (last operation at block `b0`), query a proposal there at any block `b1 ≥ b0`; let
-any further history follow (`ReachableFrom`: any operations by anybody — votes, executes, closes, other
-proposals, re-entrant and failing dispatches, funding — at blocks `≥ b1` that never go back, last
-operation at `b`), and query the same proposal again at any block `b2 ≥ b`.  Then the later answer is
-reachable from the earlier one along the forward edges only: equal, Open→Passed, Open→Rejected,
-Open→Executed (through Passed, by `execute_ok_iff`), Passed→Executed.  Never backwards, never
-Passed→Rejected, never Rejected→anything, never Executed→anything.
+Rejected" — ONE statement over operations and time.  Take ANY reachable world `w0` (any history after an
+accepted instantiation) and query a proposal there at any block `b1`; let any further history follow
+(`ReachableFrom`: any operations by anybody — votes, executes, closes, other proposals, re-entrant and
+failing dispatches, funding — at blocks `≥ b1` that never go back, last operation at `b`), and query the
+same proposal again at any block `b2 ≥ b`.  Then the later answer is reachable from the earlier one along
+the forward edges only: equal, Open→Passed, Open→Rejected, Open→Executed (through Passed, by
+`execute_ok_iff`), Passed→Executed.  Never backwards, never Passed→Rejected, never Rejected→anything,
+never Executed→anything.
 (The proposal still exists later and the later query answers: `stored_status_edges`,
-`query_always_answers`.)  An Open-stored proposal is *observed* Passed or Rejected only once it has
-expired (`OpenInv`: a vote that decides early stores the decision at once); after expiry no vote is
-accepted, so only Execute (iff observed Passed) and Close (iff observed Rejected) can still change it. -/
-theorem observed_status_monotone {fuel : Nat} {w0 w : World} {b0 b1 b b2 : Block} (hr : ReachableAt fuel w0 b0)
-    (h01 : blockLe b0 b1) (hf : ReachableFrom fuel w0 b1 w b) (h2 : blockLe b b2) {id : Nat} {v1 v2 : ProposalView}
+`query_always_answers`; the later world is reachable: `Reachable.extend`.)  An Open-stored proposal is
+*observed* Passed or Rejected only once it has expired (`reachable_openOk`: a vote that decides early
+stores the decision at once — which is also why C04's stability of early decisions under further votes
+is not needed here: `C03.passed_justified` / `C03.rejected_justified` use it for the sticky statuses);
+after expiry no vote is accepted, so only Execute (iff observed Passed) and Close (iff observed
+Rejected) can still change the proposal. -/
+theorem observed_status_monotone {fuel : Nat} {w0 w : World} {b1 b b2 : Block} (hr : Reachable fuel w0)
+    (hf : ReachableFrom fuel w0 b1 w b) (h2 : blockLe b b2) {id : Nat} {v1 v2 : ProposalView}
     (hq1 : Cw3Fixed.queryProposal w0.ms b1 id = .ok v1) (hq2 : Cw3Fixed.queryProposal w.ms b2 id = .ok v2) :
     v1.status = v2.status ∨
       (v1.status = .open ∧ (v2.status = .passed ∨ v2.status = .rejected ∨ v2.status = .executed)) ∨
       (v1.status = .passed ∧ v2.status = .executed) := by
   obtain ⟨p0, hp0, hs1⟩ := queryProposal_ok hq1
   obtain ⟨p, hp, hs2⟩ := queryProposal_ok hq2
-  have hi0 := reachable_inv hr.reachable
-  have hopen : OpenOk b1 p0 := openInv_mono h01 (reachableAt_openInv hr) id p0 hp0
+  have hi0 := reachable_inv hr
+  have hopen : OpenOk b1 p0 := reachable_openOk hr id p0 hp0 b1
   have hinv := reachableFrom_inv
     (fun b s => blockLe b1 b ∧ Inv s ∧ Later w0.ms.core s.core ∧
       (p0.status = .open → p0.expires.isExpired b1 = true → FrozenAt p0 v1.status id s.core))
@@ -589,12 +592,7 @@ history at later blocks: funding, then a successful Execute -/
 def exW0 : World := run 10 exWorld (exOps.take 2)
 def exMore : List Op := [⟨⟨101, 1001⟩, .fund 1 "ucosm"⟩, ⟨⟨102, 1002⟩, .exec "x" (.execute 1)⟩]
 
-example : ReachableAt 10 exW0 exBlk :=
-  ReachableAt.step (w := step 10 exWorld ⟨exBlk, .exec "a" (.propose "t" "d" [.bank "r" 4 "ucosm"] none)⟩)
-    ⟨exBlk, .exec "b" (.vote 1 .yes)⟩
-    (ReachableAt.step ⟨exBlk, .exec "a" (.propose "t" "d" [.bank "r" 4 "ucosm"] none)⟩
-      (ReachableAt.init (m := exInst) "ms" _ true exBlk rfl) ⟨Nat.le_refl _, Nat.le_refl _⟩)
-    ⟨Nat.le_refl _, Nat.le_refl _⟩
+example : Reachable 10 exW0 := ⟨exInst, exState, "ms", _, true, exOps.take 2, rfl, rfl⟩
 example : ReachableFrom 10 exW0 ⟨100, 1001⟩ (run 10 exW0 exMore) ⟨102, 1002⟩ :=
   ReachableFrom.step (w := step 10 exW0 ⟨⟨101, 1001⟩, .fund 1 "ucosm"⟩) ⟨⟨102, 1002⟩, .exec "x" (.execute 1)⟩
     (ReachableFrom.step ⟨⟨101, 1001⟩, .fund 1 "ucosm"⟩ ReachableFrom.refl ⟨by decide, by decide⟩) ⟨by decide, by decide⟩
